@@ -86,7 +86,11 @@ class Parser:
 
 
 def _key(k):
-    return tuple(k) if isinstance(k, list) else k
+    if isinstance(k, list):
+        return tuple(_key(x) for x in k)
+    if isinstance(k, dict):
+        return tuple(sorted((a, _key(b)) for a, b in k.items()))
+    return k
 
 
 def parse_value(text):
